@@ -44,6 +44,14 @@ try:
             shutil.copy(patch, dst)
             if os.path.exists(os.path.join(d, "notes.md")):
                 shutil.copy(os.path.join(d, "notes.md"), dst)
-        json.dump(out, open(os.path.join(dst, "result.json"), "w"), indent=1)
+        rp = os.path.join(dst, "result.json")
+        if os.path.exists(rp):
+            try:
+                prev = json.load(open(rp))
+                if prev.get("note"):
+                    out["note"] = prev["note"]       # (a hand-written assessment of an alarm survives re-runs)
+            except Exception:
+                pass
+        json.dump(out, open(rp, "w"), indent=1)
 finally:
     shutil.rmtree(mut, ignore_errors=True)
